@@ -18,6 +18,11 @@ impl EventListeners {
 
 // ===== time limiter =====
 pub struct FixedTimeout(pub Duration);
+impl FixedTimeout {
+    pub fn new(duration: Duration) -> (r: Self)
+        ensures r.0 == duration,   // #a_fixed_timeout_is_exactly_the_given_duration [C06]
+    //@body FixedTimeout::new file=tlconfig
+}
 pub struct DynamicTimeout<F> { pub f: Arc<F> }
 impl<F> DynamicTimeout<F> {
     pub fn new(f: F) -> (r: Self)
